@@ -3,7 +3,9 @@
    fix_exec_report_msg follows the Python assertion chain line by line.  It is a total function
        scale -> tester state -> order fields -> arguments -> Ok message state' | AssertionFailed state'
    (the id counters are advanced before most assertions are evaluated, so the state after a failed
-   assertion is part of the result).
+   assertion is part of the result).  The code modelled is fix_tester.py WITH fixes/R12a (CREATED refused),
+   R12b (one OrderID per root ClOrdID), R12d (finite numbers, plain notation: no effect on exact rationals)
+   and R12e (reply() gate: session part, not modelled) applied.
 
    Numbers.  A quantity / price z stands for the exact rational z / u, where the scale u > 0 is an
    argument of the model (the harness uses u = 4096: binary fractions on which Python float
@@ -23,6 +25,7 @@
    No proofs in this file. *)
 From Coq Require Import ZArith NArith List Bool.
 From AF Require Import Base.Sx Py.Str Fix.OrderStatus.
+From AF Require Fix.Order.   (* clord_root: C17's model of FIXNewOrderSingle.clord_root (regex ^(.+)--(\d+)$) *)
 Import ListNotations.
 Open Scope Z_scope.
 
@@ -46,9 +49,18 @@ Record eargs := mkArgs {
   a_orig : option str;      (* orig_clord_id *)
   a_avg : Z }.
 
-(* self._order_id, self._exec_id, keys of self.registered_orders *)
-Record tstate := mkT { t_oid : Z; t_eid : Z; t_reg : list str }.
-Definition t_init : tstate := mkT 0 10000 [].
+(* self._order_id, self._exec_id, keys of self.registered_orders, self._order_ids (root ClOrdID -> OrderID,
+   in insertion order; added by fixes/R12b) *)
+Record tstate := mkT { t_oid : Z; t_eid : Z; t_reg : list str; t_oids : list (str * Z) }.
+Definition t_init : tstate := mkT 0 10000 [] [].
+
+Fixpoint lookup (k : str) (l : list (str * Z)) : option Z :=
+  match l with
+  | [] => None
+  | (k', v) :: r => if str_eqb k' k then Some v else lookup k r
+  end.
+(* order.clord_id_root *)
+Definition root_of (o : order) : str := Order.clord_root (o_clord o).
 
 Inductive res (A : Type) := Ok (a : A) (t : tstate) | AssertionFailed (t : tstate).
 Arguments Ok {A} a t.
@@ -74,14 +86,25 @@ Definition round3_zero (u z : Z) : bool := 2000 * Z.abs z <=? u.
 
 (* _next_order_id / _next_exec_id *)
 Definition next_order_id (t : tstate) : Z * tstate :=
-  (t_oid t + 1, mkT (t_oid t + 1) (t_eid t) (t_reg t)).
+  (t_oid t + 1, mkT (t_oid t + 1) (t_eid t) (t_reg t) (t_oids t)).
 Definition next_exec_id (t : tstate) : Z * tstate :=
-  (t_eid t + 1, mkT (t_oid t) (t_eid t + 1) (t_reg t)).
+  (t_eid t + 1, mkT (t_oid t) (t_eid t + 1) (t_reg t) (t_oids t)).
+
+(*  root = order.clord_id_root
+    if root not in self._order_ids: self._order_ids[root] = self._next_order_id()
+    order_id = self._order_ids[root] *)
+Definition order_id_for (t : tstate) (root : str) : Z * tstate :=
+  match lookup root (t_oids t) with
+  | Some v => (v, t)
+  | None =>
+      let '(n, t') := next_order_id t in
+      (n, mkT (t_oid t') (t_eid t') (t_reg t') (t_oids t' ++ [(root, n)]))
+  end.
 
 (* order_register_single; fix_cxl_request / fix_rep_request register the order under the ClOrdID
    it has after the request was built *)
 Definition register (t : tstate) (key : str) : tstate :=
-  mkT (t_oid t) (t_eid t) (if existsb (str_eqb key) (t_reg t) then t_reg t else t_reg t ++ [key]).
+  mkT (t_oid t) (t_eid t) (if existsb (str_eqb key) (t_reg t) then t_reg t else t_reg t ++ [key]) (t_oids t).
 Definition registered (t : tstate) (key : str) : bool := existsb (str_eqb key) (t_reg t).
 
 (* ---- the three quantities: isnan defaults and their assertions, then the sum assertion ---- *)
@@ -173,11 +196,13 @@ Definition fix_exec_report_msg (u : Z) (t : tstate) (o : order) (a : eargs) : re
   match a_clord a with
   | None | Some [] => AssertionFailed t
   | Some (c :: cs) =>
+    (* assert ord_status != FOrdStatus.CREATED          (fixes/R12a) *)
+    if (a_status a =? CREATED)%N then AssertionFailed t else
     let clord := c :: cs in
-    (* order_id = self._next_order_id() if order.order_id is None else order.order_id *)
+    (* order_id = self._order_ids[root] (drawn once per root) if order.order_id is None else order.order_id *)
     let '(order_id, t1) :=
       match o_oid o with
-      | None => let '(n, t') := next_order_id t in (z_to_dec n, t')
+      | None => let '(n, t') := order_id_for t (root_of o) in (z_to_dec n, t')
       | Some s => (s, t)
       end in
     (* m[ExecID] = self._next_exec_id() *)
@@ -219,6 +244,8 @@ Definition fix_cxlrep_reject_msg (mt : str) (clord orig : option str) (status : 
     | Some og =>
       let m := [(T_OrderID, VS [48%N]); (T_ClOrdID, VS c); (T_OrigClOrdID, VS og);
                 (T_OrdStatus, VS [status])] in
+      (* assert ord_status != FOrdStatus.CREATED        (fixes/R12a) *)
+      if (status =? CREATED)%N then RAssertion else
       if str_eqb mt [K_ORDERCANCELREQUEST] then ROk (m ++ [(T_CxlRejResponseTo, VS [49%N])])
       else if str_eqb mt [K_ORDERCANCELREPLACEREQUEST] then ROk (m ++ [(T_CxlRejResponseTo, VS [50%N])])
       else RAssertion
